@@ -52,7 +52,7 @@ BitsOf(m) == {j \in AllBits : (m \div Pow2(j)) % 2 = 1}
 (* used in byte next-1 if the predecessor is a bit field that ended below bit 7, else -1;      *)
 (* pf = first bit of that predecessor; closed = a variable-length field was placed (it must be *)
 (* the last one of its part); rs = the predecessor was itself placed by the same-first-bit     *)
-(* rule (only used to name the input class in violation signatures).                           *)
+(* rule ("restart").                                                                           *)
 PInit == [next |-> 0, open |-> -1, pf |-> -1, closed |-> FALSE, rs |-> FALSE]
 
 (* Successions the property text / documentation say something about.  A bit field after an    *)
@@ -64,56 +64,68 @@ PSpecified(st, k) ==
 
 PShares(st, k) == IsBit(k) /\ st.open >= 0 /\ k.fb # st.pf /\ k.fb > st.open
 
+(* UNSPECIFIED CASE.  The property text only says that bit fields *may* share a byte.  For a   *)
+(* bit field that starts above the range of a predecessor which itself started a new byte       *)
+(* because it repeated the first bit of *its* predecessor (e.g. the third field of BI0;BI0;BI1) *)
+(* neither text nor documentation fix whether it shares that byte.  P admits both placements;   *)
+(* everything else (disjoint ownership, no byte without owner, length = bytes spanned, the      *)
+(* three implementations agreeing on one and the same placement, non-interference) is still    *)
+(* demanded.  So Own is a *set* of admissible ownership maps; it is a singleton except here.    *)
+PAmbiguous(st, k) == st.rs /\ PShares(st, k)
+PChoices(st, k) == IF PAmbiguous(st, k) THEN {TRUE, FALSE} ELSE {PShares(st, k)}   \* share the byte?
+
 (* place one field: result = owned positions [b = first byte, n = bytes, bits = bits in each   *)
 (* of these bytes] and the new fold state.  varn = bytes the variable-length field holds.      *)
-PPlace(st, k, varn) ==
+PPlace(st, k, varn, share) ==
   IF ~IsBit(k)
   THEN LET len == IF k.var THEN varn ELSE k.n IN
        [b |-> st.next, n |-> len, bits |-> AllBits,
         st |-> [next |-> st.next + len, open |-> -1, pf |-> -1, closed |-> k.var, rs |-> FALSE]]
-  ELSE LET share == PShares(st, k)
-           b == IF share THEN st.next - 1 ELSE st.next
+  ELSE LET b == IF share THEN st.next - 1 ELSE st.next
            full == LastBit(k) = 7
        IN [b |-> b, n |-> 1, bits |-> k.fb..LastBit(k),
            st |-> [next |-> b + 1, open |-> IF full THEN -1 ELSE LastBit(k),
                    pf |-> IF full THEN -1 ELSE k.fb, closed |-> FALSE,
                    rs |-> st.open >= 0 /\ k.fb = st.pf /\ ~full]]
 
-(* a field sequence is a sequence of [k |-> kind index, p |-> part] *)
-RECURSIVE PRun(_, _)
-PRun(fs, varn) ==
-  IF fs = <<>> THEN [own |-> <<>>, st |-> [p \in Parts |-> PInit], ok |-> TRUE, rsShare |-> FALSE]
-  ELSE LET pre == PRun(SubSeq(fs, 1, Len(fs) - 1), varn)
-           f == fs[Len(fs)]
-           k == Kinds[f.k]
-           pl == PPlace(pre.st[f.p], k, varn)
-       IN [own |-> Append(pre.own, [p |-> f.p, b |-> pl.b, n |-> pl.n, bits |-> pl.bits]),
-           st |-> [pre.st EXCEPT ![f.p] = pl.st],
-           ok |-> pre.ok /\ PSpecified(pre.st[f.p], k),
-           rsShare |-> pre.rsShare \/ (pre.st[f.p].rs /\ PShares(pre.st[f.p], k))]
+(* a field sequence is a sequence of [k |-> kind index, p |-> part]; a run = one admissible     *)
+(* ownership map with the fold states behind it (amb = an unspecified choice was made)          *)
+Run0 == [own |-> <<>>, st |-> [p \in Parts |-> PInit], ok |-> TRUE, amb |-> FALSE]
+ExtendRun(pre, f, varn) ==
+  LET k == Kinds[f.k] IN
+  {LET pl == PPlace(pre.st[f.p], k, varn, c) IN
+   [own |-> Append(pre.own, [p |-> f.p, b |-> pl.b, n |-> pl.n, bits |-> pl.bits]),
+    st |-> [pre.st EXCEPT ![f.p] = pl.st],
+    ok |-> pre.ok /\ PSpecified(pre.st[f.p], k),
+    amb |-> pre.amb \/ PAmbiguous(pre.st[f.p], k)] : c \in PChoices(pre.st[f.p], k)}
+RECURSIVE PRuns(_, _)
+PRuns(fs, varn) ==
+  IF fs = <<>> THEN {Run0}
+  ELSE UNION {ExtendRun(pre, fs[Len(fs)], varn) : pre \in PRuns(SubSeq(fs, 1, Len(fs) - 1), varn)}
 
-Own(fs, varn) == PRun(fs, varn).own                 \* the ownership map
+Own(fs, varn) == {run.own : run \in PRuns(fs, varn)}   \* the admissible ownership maps
 PLength(run, p) == run.st[p].next                  \* data length of part p = bytes spanned
-PFixed(fs, p) == PRun(fs, 0).st[p].next            \* ... when the variable field is empty
-HasVar(fs, p) == \E i \in 1..Len(fs) : fs[i].p = p /\ Kinds[fs[i].k].var
+PFixedOf(run, p, varn) == IF run.st[p].closed THEN run.st[p].next - varn ELSE run.st[p].next  \* ... with an empty variable field
 
 Positions(o) == {<<o.p, b, j>> : b \in o.b..(o.b + o.n - 1), j \in o.bits}
+MaxOf(E) == IF E = {} THEN 0 ELSE CHOOSE e \in E : \A x \in E : x <= e
 
-(* lemmas about P itself (checked on every generated sequence) *)
+(* lemmas about P itself (checked on every admissible map of every generated sequence) *)
 PDisjoint(own) == \A i, j \in 1..Len(own) : i < j => Positions(own[i]) \cap Positions(own[j]) = {}
 PNoByteGap(run) == \A p \in Parts : \A b \in 0..(PLength(run, p) - 1) :
                      \E i \in 1..Len(run.own) : run.own[i].p = p /\ b \in run.own[i].b..(run.own[i].b + run.own[i].n - 1)
 PSpan(run) == \A p \in Parts :
-                PLength(run, p) = LET E == {run.own[i].b + run.own[i].n : i \in {x \in 1..Len(run.own) : run.own[x].p = p}}
-                                  IN IF E = {} THEN 0 ELSE CHOOSE e \in E : \A x \in E : x <= e
-PFullConsecutive(fs, run) ==      \* full-byte fields follow their predecessor without a gap
+                PLength(run, p) = MaxOf({run.own[i].b + run.own[i].n : i \in {x \in 1..Len(run.own) : run.own[x].p = p}})
+PFullConsecutive(fs, run) ==      \* full-byte fields follow the fields before them without a gap
   \A i \in 1..Len(fs) : ~IsBit(Kinds[fs[i].k]) =>
-     run.own[i].b = PLength(PRun(SubSeq(fs, 1, i - 1), 2), fs[i].p)
+     run.own[i].b = MaxOf({run.own[j].b + run.own[j].n : j \in {x \in 1..(i - 1) : fs[x].p = fs[i].p}})
 PLemmas(fs, run) == PDisjoint(run.own) /\ PNoByteGap(run) /\ PSpan(run) /\ PFullConsecutive(fs, run)
 
 (* ======================================== S ============================================== *)
-(* SGuardAfter = FALSE transcribes the pinned tree.  TRUE models the proposed fix              *)
-(* `(!after && firstBit == previousFirstBit)' in hasFullByteOffset.                            *)
+(* SGuardAfter = FALSE transcribes the pinned tree: `firstBit == previousFirstBit' is also     *)
+(* evaluated with after = true, so the field behind a same-first-bit restart starts a new byte *)
+(* (and the one behind a second restart shares again).  TRUE models the variant                *)
+(* `(!after && firstBit == previousFirstBit)', which always shares.  Both are admissible for P. *)
 CONSTANT SGuardAfter
 
 SLen(k) == IF k.var THEN 255 ELSE k.n              \* m_length (REMAIN_LEN = 255)
@@ -187,19 +199,20 @@ SWriteRun(fs, q, varn) ==
 
 POwnPos(o) == [b |-> o.b, n |-> o.n, bits |-> o.bits]
 
-(* S => P for one sequence (all three implementations give P's positions and length) *)
-SConformsP(fs, varn) ==
-  LET run == PRun(fs, varn) IN
+(* S => P for one sequence: all three implementations give the positions and lengths of one  *)
+(* and the same admissible map                                                                 *)
+SConformsRun(fs, run, varn) ==
   \A q \in Parts :
     LET size == PLength(run, q)
         rr == SReadRun(fs, q, size)
         ww == SWriteRun(fs, q, varn)
-    IN /\ SGetLength(fs, q, PFixed(fs, q)) = PFixed(fs, q)
-       /\ ~HasVar(fs, q) => SGetLength(fs, q, 31) = size
+    IN /\ SGetLength(fs, q, PFixedOf(run, q, varn)) = PFixedOf(run, q, varn)
+       /\ ~run.st[q].closed => SGetLength(fs, q, 31) = size
        /\ ~rr.st.err /\ rr.st.off = size
        /\ ww.st.off = size
        /\ \A i \in 1..Len(fs) : fs[i].p = q =>
              /\ rr.pos[i] = POwnPos(run.own[i])
              /\ ww.pos[i] = POwnPos(run.own[i])
+SConformsP(fs, varn) == \E run \in PRuns(fs, varn) : SConformsRun(fs, run, varn)
 
 =============================================================================
